@@ -6,7 +6,6 @@ package auth
 
 import (
 	"strings"
-	"unicode"
 
 	"github.com/cnotch/ipchub/utils/scan"
 )
@@ -17,7 +16,7 @@ const (
 )
 
 // 行分割
-var pathScanner = scan.NewScanner('/', unicode.IsSpace)
+var pathScanner = scan.NewScanner('/', nil)
 
 // PathMatcher 路径匹配接口
 type PathMatcher interface {
